@@ -232,6 +232,10 @@ def vc_array_update():
                 forms = {"array_like": (T2.ShapedValue(vshape), T.prod(vshape), [s >= 0 for s in vshape])}
                 nlen = fresh_int("new_length")
                 forms["integer_length"] = (nlen, nlen, [])
+                # an array-like of higher rank than the array (its leading extents are free to agree with the array's shape): the number of
+                # items is the product over ALL its axes
+                extra_dim = fresh_int("v_extra")
+                forms["array_like_of_higher_rank"] = (T2.ShapedValue(vshape + (extra_dim,)), T.prod(vshape) * extra_dim, [s >= 0 for s in vshape] + [extra_dim >= 0])
                 # another xobject array of the same class (any size, any buffer): only its _shape decides
                 other = SymObj("instance", {"__class__": cls, "_buffer": XB.XBuf("other"), "_offset": fresh_int("other_offset"), "_size": fresh_int("other_size"),
                                             "_shape": vshape})
